@@ -88,9 +88,9 @@ func (g *gateCtl) disarm() (timeouts, passes int) {
 	return
 }
 
-// wait blocks until ready() holds (g.mu held), at most 3 s.
+// wait blocks until ready() holds (g.mu held), at most 10 s.
 func (g *gateCtl) wait(ready func() bool) {
-	deadline := time.Now().Add(3 * time.Second)
+	deadline := time.Now().Add(10 * time.Second)
 	for g.active && !ready() {
 		if time.Now().After(deadline) {
 			g.timeouts++
